@@ -410,7 +410,7 @@ pub fn specs(tier: Tier) -> Vec<(String, KyteaSpec)> {
     let mut windows = windows;
     // u8 extremes of the window sizes stored in the file (2*W does not fit a u8 from 128 on)
     windows.extend([(127u8, 1u8), (128, 1), (1, 128), (200, 2), (2, 255), (255, 255)]);
-    let kmax = tier.pick(2, 3);
+    let kmax = tier.pick(2, 4);
     for (mi, map) in maps.iter().enumerate() {
         for &(cw, tw) in &windows {
             // n-gram tries: every set of <= kmax n-grams per trie (admissible lengths)
@@ -476,7 +476,7 @@ pub fn specs(tier: Tier) -> Vec<(String, KyteaSpec)> {
                 for (i, ws) in wsets.iter().enumerate().skip(1) {
                     // all mask assignments for the words of this set
                     let total = masks.len().pow(ws.len() as u32);
-                    let stride = (total / tier.pick(4, 16)).max(1);
+                    let stride = (total / tier.pick(16, 256)).max(1);
                     for a in (0..total).step_by(stride) {
                         let mut x = a;
                         let words: Vec<(String, u8)> = ws
